@@ -97,6 +97,11 @@ class DiskModel:
             return
         ino = ev.get("ino")
         if c == "open" and ev.get("ret", -1) >= 0 and (ev.get("creat") or ev.get("trunc")):
+            if ino is not None and ev.get("size", 0) == 0:
+                # a new (or truncated) file: inode numbers are reused, forget the previous owner
+                self.synced.pop(ino, None)
+                self.length.pop(ino, None)
+                self.overw.pop(ino, None)
             return
         if ino is None:
             return
